@@ -28,6 +28,7 @@ type ReplayFn = fn(&serde_json::Value) -> Option<Violation>;
 
 fn table(id: &str) -> Option<(RunFn, ReplayFn)> {
     Some(match id {
+        "C16" => (props::c16::run_check, props::c16::replay),
         "C17" => (props::c17::run_check, props::c17::replay),
         "C01" => (props::c01::run, props::c01::replay),
         "C02" => (props::c02::run_check, props::c02::replay),
@@ -218,6 +219,8 @@ fn main() {
     };
     let mut replay: Option<String> = None;
     let mut probe: Option<String> = None;
+    let mut batch: Option<String> = None;
+    let mut only: Option<usize> = None;
     let mut inner = false;
     let mut i = 1;
     while i < args.len() {
@@ -239,6 +242,14 @@ fn main() {
                 i += 1;
                 probe = Some(args.get(i).cloned().unwrap_or_else(|| usage()));
             }
+            "--batch" => {
+                i += 1;
+                batch = Some(args.get(i).cloned().unwrap_or_else(|| usage()));
+            }
+            "--only" => {
+                i += 1;
+                only = args.get(i).and_then(|s| s.parse().ok());
+            }
             _ => usage(),
         }
         i += 1;
@@ -253,6 +264,10 @@ fn main() {
         }
     };
     engine::install_panic_hook();
+    if let Some(b) = batch {
+        engine::with_big_stack(move || props::c16::child_eval(&b, only));
+        std::process::exit(0);
+    }
     if let Some(p) = probe {
         let text = std::fs::read_to_string(&p).unwrap_or_default();
         let (tag, body) = text.split_once('\n').unwrap_or(("eval", ""));
